@@ -1204,12 +1204,19 @@ func (s *State) evalStringInfixExpression(operator token.Type, left, right objec
 	switch {
 	case operator == token.PLUS && right.Type() == object.STRING:
 		rightVal := right.(object.String).Value
+		object.MustBeOk((len(leftVal) + len(rightVal)) / object.ObjectSize) // like arrays and maps +.
 		return object.String{Value: leftVal + rightVal}
 	case operator == token.ASTERISK && rightIsInt:
-		n := len(leftVal) * int(rightVal)
 		if rightVal < 0 {
 			return s.Errorf("right operand of * on strings must be a positive integer, got %d", rightVal)
 		}
+		if len(leftVal) == 0 || rightVal == 0 {
+			return object.String{}
+		}
+		if rightVal > int64(math.MaxInt/len(leftVal)) { // would overflow and fool the memory check below.
+			return s.Errorf("string repeat result too large: %d * %d", len(leftVal), rightVal)
+		}
+		n := len(leftVal) * int(rightVal)
 		object.MustBeOk(n / object.ObjectSize)
 		return object.String{Value: strings.Repeat(leftVal, int(rightVal))}
 	default:
@@ -1229,6 +1236,12 @@ func (s *State) evalArrayInfixExpression(operator token.Type, left, right object
 		// TODO: go1.23 use	slices.Repeat
 		if rightVal < 0 {
 			return s.NewError("right operand of * on arrays must be a positive integer")
+		}
+		if len(leftVal) == 0 || rightVal == 0 {
+			return object.EmptyArray // and not looping rightVal times for nothing.
+		}
+		if rightVal > int64(math.MaxInt/len(leftVal)) { // would overflow and fool the memory check below.
+			return s.Errorf("array repeat result too large: %d * %d", len(leftVal), rightVal)
 		}
 		result := object.MakeObjectSlice(len(leftVal) * int(rightVal))
 		for range rightVal {
